@@ -259,6 +259,12 @@ def run_unit(u, workdir):
         if cls in ('postcondition', 'precondition', 'assertion') and loc.get('file', '').endswith(os.path.basename(base) + '.c'):
             ln = int(loc.get('line', 0))
             m = re.search(r'/\*\s*(.*?)\s*\*/\s*$', srclines[ln - 1]) if 0 < ln <= len(srclines) else None
+            if m is None and cls == 'postcondition' and 0 < ln <= len(srclines) and not srclines[ln - 1].startswith('__CPROVER_ensures'):
+                # goto-cc sometimes reports the line of the preceding requires clause: take the first ensures line that follows
+                for k2 in range(ln, min(ln + 3, len(srclines))):
+                    if srclines[k2].startswith('__CPROVER_ensures'):
+                        m = re.search(r'/\*\s*(.*?)\s*\*/\s*$', srclines[k2])
+                        break
             if m and cls != 'assertion':
                 desc = m.group(1)
         for cn, dn in demap.items():
